@@ -316,6 +316,12 @@ func (progBldr *ProgBuilder) CodePathOper(elem int) {
 		// not implemented
 	case '/':
 		pathOperPush = func(ctx *context) {
+			// An absolute path starts at the root with no elements.  Inside
+			// a predicate the path under construction is a copy of the outer
+			// path (that is what '..' operands are relative to), so it has
+			// to be replaced, not just flagged.
+			ctx.actualPathStack.PopPath()
+			ctx.actualPathStack.NewPathFromCurrent()
 			ctx.actualPathStack.PeakPath().SetIsRootBased(true)
 			//ctx.actualPathStack.PushElem("/")
 		}
